@@ -31,7 +31,15 @@ class CsvProjectIo(ProjectIoInterface):
         -------
             :class:`Parameters
         """
-        df = pd.read_csv(file_name, skipinitialspace=True, na_values=["None", "none"], sep=sep)
+        df = pd.read_csv(
+            file_name,
+            skipinitialspace=True,
+            na_values=["None", "none"],
+            sep=sep,
+            # labels like '1.10' are no numbers and values need to survive a round trip
+            dtype={name: str for name in ("label", "Label", "LABEL")},
+            float_precision="round_trip",
+        )
         df.columns = [column.lower() for column in df.columns]
         df = df.rename(columns=OPTION_NAMES_DESERIALIZED)
         safe_dataframe_fillna(df, "minimum", -np.inf)
